@@ -55,3 +55,8 @@ CORPUS += [
         'heights_sorted, indices = torch.sort(node_heights, descending=False)', benign=True,
         more=[dict(scope='ConstantCoalescentIntegrated.log_prob', old='heights_sorted = torch.gather(node_heights, -1, indices)', new='pass')]),
 ]
+CORPUS += [
+    Mut('c20-current-precision-matrix-read-after-the-proposal-is-stored', 'torchtree/inference/mcmc/gmrf_block_updating.py', 'GMRFPiecewiseCoalescentBlockUpdatingOperator._step', 'precision_matrix = self.gmrf.precision_matrix()', 'pass',
+        expect=[('C20.H', 'matrix-of-the-current-state-is-read-before-the-precision-is-replaced')],
+        more=[dict(scope='GMRFPiecewiseCoalescentBlockUpdatingOperator._step', old='backwardQW = precision_matrix.clone()', new='precision_matrix = self.gmrf.precision_matrix()\nbackwardQW = precision_matrix.clone()')]),
+]
